@@ -21,3 +21,22 @@ Print Assumptions C19_invariant_preserved_by_receive.
 Theorem C19_invariant_preserved_by_send : forall k h flag pl d k' xk, KInv k -> genDataMsg k h flag pl = Ok (d, k', xk) -> KInv k'.
 Proof. exact KInv_gen. Qed.
 Print Assumptions C19_invariant_preserved_by_send.
+
+(* ---- at conversation level, over every history ----
+   Whatever is sent to a conversation (genuine, forged, replayed, garbage), whatever the user does and however many key
+   exchanges and rotations happen: the session's key context keeps at most 4 counter entries and 4 MAC-key entries (one
+   per key pair of the window), the key context an exchange is preparing keeps none, and the resend queue holds at most
+   the most recent message - more than one text only while no session exists and the texts wait for the key exchange. *)
+From OTR Require Import Gen.Consts Proto.Conv Proto.Lifecycle Proto.Bounded.
+Theorem C19_retained_key_state_bounded : forall who pol key h,
+  let c := fst (run_calls (conv_init who pol key) h) in
+  (length (counters (c_keys c)) <= 4)%nat /\ (length (macHistory (c_keys c)) <= 4)%nat /\
+  counters (a_keys (the_ake c)) = [] /\ macHistory (a_keys (the_ake c)) = [].
+Proof. exact retained_key_state_bounded. Qed.
+Print Assumptions C19_retained_key_state_bounded.
+
+Theorem C19_resend_queue_bounded : forall who pol key h,
+  let c := fst (run_calls (conv_init who pol key) h) in
+  (length (c_resendMsgs c) <= 1)%nat \/ (c_msgState c <> c_encrypted /\ c_mayRetransmit c <> c_noRetransmit).
+Proof. exact resend_queue_bounded. Qed.
+Print Assumptions C19_resend_queue_bounded.
